@@ -60,6 +60,10 @@ def _fits(accel, jerk, T):
 @st.composite
 def t3_moves(draw, with_jerk=True, vertex_weight=0.3, max_log=32):
     """(T, rate, accel, jerk) in the firmware-valid domain, with a tag saying how it was built."""
+    if with_jerk:
+        # a non-zero integer jerk bends the rate by >= jerk*(T-1)^2/8 over the move, so valid
+        # jerk moves have T below ~2^18; longer ones necessarily have jerk == 0
+        max_log = min(max_log, draw(st.sampled_from([18, 18, 18, 32])))
     T = draw(ticks(max_log))
     tag = "free"
     if not with_jerk:
@@ -68,6 +72,8 @@ def t3_moves(draw, with_jerk=True, vertex_weight=0.3, max_log=32):
     else:
         jb = min(M, max(1, (4 * M) // max(T * T // 2, 1)))
         jerk = _small_or_wide(draw, jb)
+        if jerk == 0:
+            jerk = draw(st.sampled_from([-1, 1]))
         pick = draw(st.integers(0, 99))
         if jerk != 0 and pick < int(vertex_weight * 100):
             # place the vertex k* = 1/2 - accel/jerk at a chosen position relative to [1, T]
@@ -92,19 +98,36 @@ def t3_moves(draw, with_jerk=True, vertex_weight=0.3, max_log=32):
             tag = "accel=-jerk"
         else:
             accel = _small_or_wide(draw, min(M, (2 * M) // max(T - 1, 1)))
-    # scale down until the excursion fits (constructive, terminates: (0, 0) always fits)
-    guard = 0
-    while not _fits(accel, jerk, T):
-        guard += 1
-        accel = tz(accel * 2, 3) if guard < 200 else 0
-        jerk = tz(jerk * 2, 3) if guard < 200 else 0
+    # pull (accel, jerk) into the valid window (constructive; terminates: (0, 0) always fits).
+    # accel is first moved toward the value that centres the vertex (smallest excursion for
+    # this jerk); only if even that does not fit is the jerk reduced.
+    for _ in range(600):
+        if _fits(accel, jerk, T):
+            break
+        centre = -(jerk * T) // 2
+        if accel != centre and _fits(centre, jerk, T):
+            diff = accel - centre
+            accel = centre + (tz(diff * 2, 3) if abs(diff) > 1 else 0)
+        else:
+            jerk = tz(jerk * 2, 3)
+            accel = tz(accel * 2, 3)
+    else:
+        accel, jerk = 0, 0
     qmin, qmax = t3_q_range(accel, jerk, T)
     cprime = -tz(accel, 2) + tz(jerk, 6)
     lo = max(-M - qmin, -M + cprime)
     hi = min(M - qmax, M + cprime)
-    mode = draw(st.sampled_from(["lo", "hi", "zero1", "zero1", "zero12", "small", "small",
-                                 "uniform", "uniform", "uniform"]))
-    if mode == "lo":
+    modes = ["lo", "hi", "zero1", "zero1", "zero12", "small", "small",
+             "uniform", "uniform", "uniform"]
+    if tag.startswith("vertex-"):
+        modes += ["peakside"] * 5
+    mode = draw(st.sampled_from(modes))
+    if mode == "peakside":
+        # put r0 on the side of the window that makes the vertex the absolute peak
+        span = (hi - lo) // draw(st.sampled_from([2, 4, 64, 1 << 20]))
+        off = draw(st.integers(0, max(span, 0)))
+        r0 = lo + off if jerk > 0 else hi - off
+    elif mode == "lo":
         r0 = min(hi, lo + draw(st.integers(0, 3)))
     elif mode == "hi":
         r0 = max(lo, hi - draw(st.integers(0, 3)))
